@@ -63,6 +63,25 @@ CLAIMED["C14"] = dict(
          "known finding: i32 storage with a base unit longer than 2.147 s panics",
     technique="Coq proof + extracted-model correspondence + exact oracle")
 
+CLAIMED["C11"] = dict(
+    text="Coq theorems about the Gallina transcription of format_arguments! and Debug for Quantity, parametric in the storage type's own "
+         "formatting: output = storage text, one space, label; label = abbreviation / singular iff the converted value is one / plural; Debug "
+         "suffix lists exactly the non-zero exponents in system order; tie: ~29 000 format!() results per run (8 fmt traits, width/fill/align/"
+         "sign/#/0/precision, both styles, into_format_args and Arguments::with, f64/f32/i64/BigRational, default and km-g-h base units, values "
+         "converting to exactly one) compared with the extracted model fed with the storage type's formatting of the converted value",
+    note=TB + "the digits are the storage type's (oracle produced in the same process); the numeric conversion is C03/C08's",
+    technique="Coq proof of the composition + extracted-model correspondence with storage-format oracle")
+CLAIMED["C12"] = dict(
+    text="Coq theorems, parametric in the storage type's FromStr: parse_quantity is total; NoSeparator iff no space; then bad number; then "
+         "unknown unit; success iff number + first space + (trimmed) registered label, selecting the first registered unit with that label; "
+         "exhaustive table theorems on the regenerated SI tables: no label denotes two conversions within a quantity, no label has "
+         "leading/trailing blanks; format-then-parse returns a unit with the same conversion and the printed number; tie: ~14 000 strings per "
+         "run (every label class, malformed stream with Unicode blanks, wrong case, bad number and unit, other quantities' labels) parsed by the "
+         "compiled crate and by the extracted model, successful parses compared with the conversion model's new::<unit>(value)",
+    note=TB + "str::trim's White_Space set and splitn are modelled; the storage type's FromStr is an oracle reported by the harness; i64 storage "
+         "scoped to units whose coefficient Ratio<i64> can hold",
+    technique="Coq proof + exhaustive table evaluation + extracted-model correspondence")
+
 NOT_YET = "check under construction in this build phase; will be claimed once bin/check implements it"
 
 
